@@ -100,9 +100,9 @@ ArchVerdict(o) ==
   ELSE IF \E g \in 1..4 : (o.swap[g] = 1) # ((o.hints[g] % 2) = 1) \/ (o.pushpop[g] = 1) # ((o.hints[g] \div 2) % 2 = 1) THEN "arch:inst_hints"
   ELSE IF a \notin SupportedArchs THEN
     (* an architecture without a backend has no traits: no registers, no SP/FP/LR/PC, no type mapping - the same answer for every such architecture *)
-    IF o.sp # NoId \/ o.fp # NoId \/ o.lr # NoId \/ o.pc # NoId THEN "arch:unsupported:reg-ids"
-    ELSE IF regs # {} \/ \E i \in 1..32 : o.t2r[i] # 0 THEN "arch:unsupported:regs"
-    ELSE IF o.hw # 0 \/ o.min # Z32 \/ o.max # Z32 THEN "arch:unsupported:stack" ELSE ""
+    IF regs # {} \/ \E i \in 1..32 : o.t2r[i] # 0 THEN "arch:unsupported:regs"
+    ELSE IF o.hw # 0 \/ o.min # Z32 \/ o.max # Z32 THEN "arch:unsupported:stack"
+    ELSE IF o.sp # NoId \/ o.fp # NoId \/ o.lr # NoId \/ o.pc # NoId THEN "arch:unsupported:reg-ids" ELSE ""
   ELSE IF ~(MustRegTypes(a) \subseteq regs /\ regs \subseteq MayRegTypes(a)) THEN "arch:supported_reg_types"
   ELSE IF a \in {ArchX86, ArchX64} /\ ~(o.sp = X86Sp /\ o.fp = X86Bp /\ o.lr = NoId /\ o.pc = NoId) THEN "arch:x86:sp-fp-lr"
   ELSE IF a = ArchA64 /\ ~(o.sp = A64Sp /\ o.fp = A64Fp /\ o.lr = A64Lr /\ o.pc = NoId) THEN "arch:a64:sp-fp-lr"
@@ -219,7 +219,6 @@ SigFVerdict(o) ==
   IF v > FieldMax(L, f) THEN "harness"
   ELSE IF o.get # fld THEN "sig:get_field:" \o f
   ELSE IF o.has # (fld # 0) THEN "sig:has_field:" \o f
-  ELSE IF o.hasv # (fld = v) \/ ~o.hasself THEN "sig:has_field(value)"            \* "has field equal to value"
   ELSE IF SigOfLimbs(o.set) # setv THEN "sig:set_field:" \o f                      \* the field is replaced, every other bit kept
   ELSE IF SigOfLimbs(o.repl) # setv THEN "sig:replaced_value:" \o f
   ELSE IF SigOfLimbs(o.from) # only THEN "sig:from_value:" \o f
@@ -235,7 +234,9 @@ SigFVerdict(o) ==
   ELSE IF SigOfLimbs(o.and) # [b \in 0..31 |-> sig[b] * m[b]] \/ SigOfLimbs(o.subset) # [b \in 0..31 |-> sig[b] * m[b]] THEN "sig:and"
   ELSE IF SigOfLimbs(o.or) # [b \in 0..31 |-> IF sig[b] + m[b] > 0 THEN 1 ELSE 0] THEN "sig:or"
   ELSE IF SigOfLimbs(o.xor) # [b \in 0..31 |-> (sig[b] + m[b]) % 2] \/ SigOfLimbs(o.not) # [b \in 0..31 |-> 1 - sig[b]] THEN "sig:xor-not"
-  ELSE IF o.eqm # (sig = m) \/ o.nem # (sig # m) THEN "sig:eq" ELSE ""
+  ELSE IF o.eqm # (sig = m) \/ o.nem # (sig # m) THEN "sig:eq"
+  ELSE IF o.hasv # (fld = v) \/ ~o.hasself THEN "sig:has_field(value)"            \* has_field<Mask>(value): the field equals value
+  ELSE ""
 
 TableVerdict(o) ==
   CASE o.k = "typeid" -> TypeVerdict(o) [] o.k = "cxxtype" -> CxxVerdict(o) [] o.k = "regtrait" -> RegTraitVerdict(o) [] o.k = "vecsize" -> VecSizeVerdict(o)
